@@ -4,5 +4,5 @@ F=$1; L=$2
 T=$(mktemp -d)
 head -n $L $F > $T/g.v
 echo "Show." >> $T/g.v
-(cd $T && coqc -Q /verif/coq/theories BP g.v 2>&1 | grep -v "^Error: There are pending proofs" | head -${3:-60})
+(cd $T && coqc -Q ${COQROOT:-/verif/coq}/theories BP g.v 2>&1 | grep -v "^Error: There are pending proofs" | head -${3:-60})
 rm -rf $T
